@@ -1,13 +1,18 @@
 #!/bin/bash
-# usage: seedcheck.sh <patch.diff> <tier> <property>...   — applies the patch to /repo, runs the checks, reverts.
+# usage: seedcheck.sh <patch.diff> <tier> <property>...
+# Applies the patch to a scratch worktree of /repo's HEAD (/tmp/seedrepo; other people may be running checks
+# against /repo itself), runs the checks there through VCHECK_REPO, and removes the change again.
 patch=$1; tier=$2; shift 2
-cd /repo || exit 2
-if ! git diff --quiet; then echo "/repo is dirty"; exit 2; fi
+if [ ! -d /tmp/seedrepo ]; then git -C /repo worktree add -q --detach /tmp/seedrepo HEAD || exit 2; fi
+cd /tmp/seedrepo || exit 2
+git checkout -q --detach $(git -C /repo rev-parse HEAD) && git checkout -q -- . && git clean -fdq
 git apply "$patch" || { echo "patch does not apply"; exit 2; }
-trap 'git -C /repo checkout -- . ; git -C /repo clean -fdq -- . 2>/dev/null' EXIT
+trap 'git -C /tmp/seedrepo checkout -q -- . ; git -C /tmp/seedrepo clean -fdq' EXIT
 cd /verif
 for p in "$@"; do
-  ./bin/vcheck run --property $p --tier $tier > /tmp/seedcheck_$p.log 2>&1
+  cp evidence/$p.json /tmp/evidence_keep_$p.json 2>/dev/null
+  VCHECK_REPO=/tmp/seedrepo ./bin/vcheck run --property $p --tier $tier > /tmp/seedcheck_$p.log 2>&1
   rc=$?
-  echo "$p rc=$rc :: $(grep -E '^VIOLATION' /tmp/seedcheck_$p.log | head -3 | tr '\n' ' ' | cut -c1-300) $(tail -1 /tmp/seedcheck_$p.log | cut -c1-160)"
+  cp /tmp/evidence_keep_$p.json evidence/$p.json 2>/dev/null
+  echo "$p rc=$rc :: $(grep -E '^VIOLATION' /tmp/seedcheck_$p.log | head -3 | sed 's/.*replays.//' | tr '\n' ' ' | cut -c1-300) $(tail -1 /tmp/seedcheck_$p.log | cut -c1-120)"
 done
